@@ -1,3 +1,61 @@
-From Hio Require Import Base.Prelude Model.Sched.
-Theorem C01_placeholder : True. Proof. exact I. Qed.
-Print Assumptions C01_placeholder.
+(* C01 — every doer runs a well-formed lifecycle on every exit path.
+   Model: Model/Sched.v (Doist/Doer/DoDoer of src/hio/base/doing.py as a fuelled
+   interpreter over doer programs).  Proofs: Proofs/SchedFrame.v, SchedLife.v, SchedTop.v. *)
+From Hio Require Import Base.Prelude Base.AMap Base.Time Model.Sched Proofs.SchedLife Proofs.SchedTop.
+
+(* For every time type, every program (any forest of leaf doers of the three
+   kinds and DoDoers, any scripts of yields / returns / raises / KeyboardInterrupts,
+   any runtime extend/remove effects, any limit), and any budgets: the lifecycle
+   events of every doer j, oldest first, are a sequence of complete lifecycles
+       Enter Recur* (Clean | Cease | Abort) Exit
+   (the terminal kind is missing only in the KeyboardInterrupt form, finding
+   D40-kbd), followed — exactly when its generator is still suspended or
+   executing — by one lifecycle in progress; nothing ever follows an Exit except
+   a new Enter. *)
+Theorem C01_lifecycles :
+  forall (T : Type) (TT : Time T) (cycles fuel : nat) (p : prog T) (j : id),
+    life_ok (get_gen (do_run cycles fuel p) j) (events j (do_run cycles fuel p)).
+Proof. intros. apply do_run_lifecycles. Qed.
+Print Assumptions C01_lifecycles.
+
+(* The same invariant holds after every single scheduler operation, from any
+   state satisfying it (not only at the end of a run): one-step form for the
+   three generator operations. *)
+Theorem C01_preserved_by_operations :
+  forall (T : Type) (TT : Time T) (tk : T) (fuel : nat) (s : st T) (i : id),
+    LInv s ->
+    LInv (fst (gen_start tk fuel s i)) /\ LInv (fst (gen_send tk fuel s i)) /\ LInv (gen_close tk fuel s i).
+Proof.
+  intros T TT tk fuel s i L.
+  destruct (linv_all tk fuel) as (Ist & _ & Isd & Icl & _).
+  repeat split.
+  - destruct (gen_start tk fuel s i) as [s' r] eqn:E. eapply Ist; eassumption.
+  - destruct (gen_send tk fuel s i) as [s' r] eqn:E. eapply Isd; eassumption.
+  - now apply Icl.
+Qed.
+Print Assumptions C01_preserved_by_operations.
+
+(* NOT PROVED (checked on the implementation by the oracle of every run, and on
+   the model by the correspondence): completeness — when do_run ends without
+   running out of budget, no doer is left suspended, i.e. every started doer has
+   exited before DoReturn/DoRaise.  It needs the second invariant of DESIGN §6
+   (every suspended doer is held by exactly one reachable deque). *)
+
+(* Non-vacuity: a forest with a nested DoDoer, a raise in the middle of a pass
+   and doers alive on both sides of it. *)
+Definition ex_prog : prog Z :=
+  let Y := {| f_es := []; f_out := OYield None |} in
+  let X := {| f_es := []; f_out := ORaise |} in
+  {| p_tock := 1%Z; p_limit := None; p_tyme := 0%Z; p_doers := [1; 2; 5]%N;
+     p_defs := [(1, FLeaf KFunc [Y; Y; Y; Y]); (2, FNest 0%Z false [3; 4]);
+                (3, FLeaf KDoer [Y; Y; Y; Y]); (4, FLeaf KDoerGen [Y; Y; X]);
+                (5, FLeaf KFunc [Y; Y; Y; Y])]%N |}.
+Example C01_example :
+  let s := do_run 10 100 ex_prog in
+  oof s = false /\
+  events 4%N s = [Enter; Recur; Recur; Abort; Exit] /\
+  events 3%N s = [Enter; Recur; Recur; Cease; Exit] /\
+  events 2%N s = [Enter; Recur; Recur; Abort; Exit] /\
+  events 5%N s = [Enter; Recur; Cease; Exit] /\
+  events 1%N s = [Enter; Recur; Recur; Cease; Exit].
+Proof. vm_compute. repeat split. Qed.
